@@ -81,8 +81,12 @@ func loc(d gen.Deviation) string { return d.TargetMod + " " + d.Target }
 
 func cases(c gen.C08Case) (with, without rescorr.Case) {
 	without = rescorr.Case{Names: c.BaseNames, Texts: c.BaseTexts, IgnoreNotSupported: c.IgnoreNS}
+	wb := c.BaseTexts
+	if len(c.WithBaseTexts) == len(c.BaseTexts) {
+		wb = c.WithBaseTexts // deviations written inside a submodule of the base
+	}
 	with = rescorr.Case{Names: append(append([]string{}, c.BaseNames...), c.DevNames...),
-		Texts: append(append([]string{}, c.BaseTexts...), c.DevTexts...), IgnoreNotSupported: c.IgnoreNS}
+		Texts: append(append([]string{}, wb...), c.DevTexts...), IgnoreNotSupported: c.IgnoreNS}
 	return
 }
 
@@ -140,7 +144,13 @@ func makePlan(c gen.C08Case, base map[string]rec) *plan {
 		implicit: map[string]bool{}, emptied: map[string]bool{}, reqIdx: map[string]int{}}
 	devs := append([]gen.Deviation{}, c.Devs...)
 	// deviating modules are applied in module name order, whatever the load order
-	sort.SliceStable(devs, func(i, j int) bool { return devs[i].Module < devs[j].Module })
+	// (and submodules take their turn after all modules)
+	sort.SliceStable(devs, func(i, j int) bool {
+		if devs[i].Sub != devs[j].Sub {
+			return !devs[i].Sub
+		}
+		return devs[i].Module < devs[j].Module
+	})
 	gone := map[string]bool{} // paths currently removed
 	for _, d := range devs {
 		for _, s := range d.Stmts {
@@ -320,6 +330,9 @@ func evaluate(items []gen.C08Case, f *lib.Flags, res *lib.Result, st *stats, ver
 		}
 		bases[i] = index(owo.Go.Dump)
 		p := makePlan(it, bases[i])
+		if it.Malformed {
+			p.order = nil // nothing to ask the specification: the statement itself is malformed
+		}
 		plans[i] = p
 		// how the replacement types are dumped: read off the reference leaves of the deviating modules
 		withIdx := index(ow.Go.Dump)
@@ -431,6 +444,9 @@ func evaluate(items []gen.C08Case, f *lib.Flags, res *lib.Result, st *stats, ver
 		}
 		if it.BadType {
 			claimed = append(claimed, "unresolvable replacement type")
+		}
+		if it.Malformed {
+			claimed = append(claimed, "malformed substatement value")
 		}
 		goErr := rescorr.HasErrors(ow.Go.Dump)
 		key := it.Combo
